@@ -321,7 +321,13 @@ class StdioClient:
                 except Exception as exc:
                     logger.error("Error serializing message in stdin_writer: %s", exc)
                     logger.debug("Failed message type: %s", type(message))
-                    logger.debug("Failed message: %s", repr(message)[:200])
+                    try:
+                        logger.debug("Failed message: %s", repr(message)[:200])
+                    except Exception:
+                        # repr() of the very object that could not be serialised may fail too
+                        # (nesting beyond the recursion limit, a broken __repr__): the writer
+                        # must go on with the next message
+                        logger.debug("Failed message has no printable representation")
                     logger.debug("Traceback:\n%s", traceback.format_exc())
                     continue
 
